@@ -205,6 +205,10 @@ def streams(tier, rng, P, only=None, cases=None):
             wrap = rng.choice(["'c %s'2 d", "'%s'4 c", "Sub{ 'd %s'8 } f", "[2 'c %s'] e", "'%s c'1 d"])
             a = pre + " l4 " + (wrap % call) + " n100"; b = pre + " l4 " + (wrap % inl) + " n100"
             cs.append(dict(req="compile2 %s %s" % (hx(a), hx(b)), src=a, src2=b, show="%s   vs   %s" % (a, b), key="xc%d" % i))
+        # an element of a tuplet whose own length is joined with '+' is one element: the others keep their share
+        for j, (a, b) in enumerate([("{{cd}8+8 e}2 f", "{{cd}4 e}2 f"), ("{c r16+16 e}4. g", "{c r8 e}4. g"), ("{c d8+8 e}1 g", "{c d4 e}1 g"), ("l8 {e {cd}16+16+8 g a}1 b", "l8 {e {cd}4 g a}1 b"),
+                                    ("{c n62,8+8 e}1 g", "{c n62,4 e}1 g")]):
+            cs.append(dict(req="compile2 %s %s" % (hx("l4 " + a + " n100"), hx("l4 " + b + " n100")), src="l4 " + a + " n100", src2="l4 " + b + " n100", show="%s   vs   %s" % (a, b), key="xl%d" % j))
         return cs
     def x_judge(c, impl, m):
         st, f = impl
@@ -214,6 +218,7 @@ def streams(tier, rng, P, only=None, cases=None):
         for a, b in zip(ta, tb_):
             na = [(e[0], e[2]) for e in a if e[1] in ("on", "off")]; nb = [(e[0], e[2]) for e in b if e[1] in ("on", "off")]
             if na != nb:
+                if c["key"].startswith("xl"): return ("violation", "a length joined with '+' changed the shares of a tuplet: %s vs %s" % (na[:6], nb[:6]))
                 if c["key"].startswith("xc"): return ("violation", "chord members played through a call differ from the written-out chord: %s vs %s" % (na[:6], nb[:6]))
                 return ("violation", "a command that does not move the pointer moved the notes of a block: %s vs %s" % (na[:6], nb[:6]))
         return None
